@@ -317,7 +317,34 @@ pub fn run_check(cfg: &Config) -> Outcome {
         }
     });
 
-    let g = agg.into_inner().unwrap_or_else(|e| e.into_inner());
+    let mut g = agg.into_inner().unwrap_or_else(|e| e.into_inner());
+    // C11: metamorphic stage (a tree behaves the same whatever neutral trees ran before it)
+    let mut meta_json = serde_json::Value::Null;
+    if prop == "C11" {
+        let pairs = if thorough { 60_000 } else { 4_000 };
+        let per = pairs / cfg.threads.max(1);
+        let results: Vec<crate::meta::MetaOutcome> = std::thread::scope(|s| {
+            let hs: Vec<_> = (0..cfg.threads).map(|t| { let profile = &profile; s.spawn(move || crate::meta::run_pairs(cfg.seed.wrapping_add(1000 * t as u64 + 17), per, profile)) }).collect();
+            hs.into_iter().filter_map(|h| h.join().ok()).collect()
+        });
+        let mut tried = 0;
+        let mut compared = 0;
+        let mut faults = 0;
+        let mut sample = None;
+        for r in results {
+            tried += r.pairs_tried;
+            compared += r.pairs_compared;
+            faults += r.prefix_faults;
+            if sample.is_none() {
+                sample = r.sample;
+            }
+            for (sig, msg, prog) in r.violations {
+                let ent = g.sigs.entry(sig).or_insert_with(|| (0, prog, msg, 0));
+                ent.0 += 1;
+            }
+        }
+        meta_json = json!({"pairs_tried": tried, "pairs_with_neutral_prefix_compared": compared, "compared_pairs_whose_prefix_contained_abort_or_postponement": faults, "sample": sample});
+    }
     let known = load_known(&cfg.known);
     let open: Vec<&KnownFinding> = known.iter().filter(|k| k.property == prop && k.status == "open").collect();
     let _ = std::fs::create_dir_all(&cfg.replay_dir);
@@ -395,6 +422,7 @@ pub fn run_check(cfg: &Config) -> Outcome {
             "system_runs_observed": g.runs,
             "monitor_counters": g.counters,
             "stopped_by_watchdog": stop.load(Ordering::Relaxed),
+            "metamorphic_stage": meta_json,
             "build_profile": if cfg!(debug_assertions) { "debug (debug assertions on)" } else { "release" },
         },
         "assumptions": [
